@@ -207,6 +207,52 @@ def fault_configs(tier):
     return [ImplCfg(n, e, a, s) for n, e, a, s in lst]
 
 
+SWAP2_OPS = ('{"swap2", "ctorDefault", "ctorCountVal", "ctorFromVector", "pushBack", "popBack", "clear", "reserve", "reserveBig", '
+             '"shrinkToFit", "destroy", "relocate", "eq", "assignMove", "swap", "iterate"}')
+
+
+def swap2_configs(tier):
+    S = lambda *a: a
+    q = [
+        ('x_s2_v_NTR', 'NTR', 'amcled', [S('small', 2, 'u32'), S('vector', 0, 'u32')]),
+        ('x_s2u8_v_TR', 'TR', 'amcled', [S('small', 2, 'u8'), S('vector', 0, 'u32')]),
+        ('x_f3_s2_NTR', 'NTR', 'stdlike', [S('fixed', 3), S('small', 2, 'u32')]),
+        ('x_v_f2_TR', 'TR', 'stdlike', [S('vector', 0, 'u32'), S('fixed', 2)]),
+        ('x_s2_s4_NTR', 'NTR', 'amcled', [S('small', 2, 'u32'), S('small', 4, 'u32')]),
+        ('x_s2_vA2_NTR', 'NTR', 'amcled', [S('small', 2, 'u32'), S('vector', 0, 'u32', 'A2')]),
+        ('x_f3_f5_TR', 'TR', 'stdlike', [S('fixed', 3), S('fixed', 5)]),
+    ]
+    t = [
+        ('x_v_s3u8_NTR', 'NTR', 'stdlike', [S('vector', 0, 'u32'), S('small', 3, 'u8')]),
+        ('x_s1_s3_TC', 'TC', 'amcled', [S('small', 1, 'u32'), S('small', 3, 'u32')]),
+        ('x_s4_f2_NTR', 'NTR', 'amcled', [S('small', 4, 'u32'), S('fixed', 2)]),
+        ('x_vu16_vu32_TR', 'TR', 'withrealloc', [S('vector', 0, 'u16'), S('vector', 0, 'u32')]),
+        ('x_s2_s2A2_TR', 'TR', 'amcled', [S('small', 2, 'u32'), S('small', 2, 'u32', 'A2')]),
+        ('x_f5_v_NTR', 'NTR', 'amcled', [S('fixed', 5), S('vector', 0, 'u32')]),
+        ('x_s3i8_v_TC', 'TC', 'stdlike', [S('small', 3, 'i8'), S('vector', 0, 'u32')]),
+    ]
+    lst = q + (t if tier == 'thorough' else [])
+    return [ImplCfg(n, e, a, s) for n, e, a, s in lst]
+
+
+def suite_swap2(tier, seed):
+    def compute(d):
+        params = dict(Vals=[1, 2], MaxLen=3 if tier == 'quick' else 4, MaxCnt=2, Its=['ptr'], RLens=[0, 1], Ops=SWAP2_OPS,
+                      WalkLen=300, Alias=False)
+        jobs = [(cfg, params) for cfg in swap2_configs(tier)]
+        vlib.pmap_proc(vecpipe.mc_export_job, [(d, c.model(), p, c.name) for c, p in jobs], workers=6)
+
+        def one(job):
+            cfg, params = job
+            md, info = vecpipe.mc_export(d, cfg.model(), params, cfg.name)
+            r = run_cfg_script(d, cfg, os.path.join(md, 'walks.script'), 'walks')
+            r['mc'] = info
+            r['kind'] = 'swap2'
+            return r
+        return dict(results=pmap(one, jobs, workers=8))
+    return cached_suite('swap2', tier, seed, compute)
+
+
 def suite_fault(tier, seed):
     def compute(d):
         cfgs = fault_configs(tier)
@@ -240,7 +286,7 @@ def suite_fault(tier, seed):
 # ------------------------------------------------------------------------------------------------------------------
 VEC_PROPS = {'C01', 'C02', 'C05', 'C06', 'C07', 'C10'}
 
-RELEVANT_STAT = {'C09': 'faults', 'C01': 'ops', 'C02': 'prims', 'C05': 'pristineOps', 'C06': 'allocEvents', 'C07': 'stable', 'C10': 'alias'}
+RELEVANT_STAT = {'C13': 'ops', 'C14': 'ops', 'C09': 'faults', 'C01': 'ops', 'C02': 'prims', 'C05': 'pristineOps', 'C06': 'allocEvents', 'C07': 'stable', 'C10': 'alias'}
 
 
 def make_replay(prop, r, v):
@@ -305,8 +351,12 @@ def evidence_vec(prop, res, extra_notes=None):
 
 
 def run_property(prop, tier, seed):
-    if prop in VEC_PROPS or prop == 'C09':
-        res = suite_vec(tier, seed) if prop != 'C09' else dict(results=[], wall=0, cached=True)
+    if prop in VEC_PROPS or prop in ('C09', 'C13', 'C14'):
+        res = suite_vec(tier, seed) if prop not in ('C09', 'C13') else dict(results=[], wall=0, cached=True)
+        if prop in ('C13', 'C02', 'C06', 'C14'):
+            sr = suite_swap2(tier, seed)
+            res = dict(results=res['results'] + sr['results'], wall=res.get('wall', 0) + sr.get('wall', 0),
+                       cached=res.get('cached') and sr.get('cached'))
         if prop in ('C09', 'C02', 'C06'):
             fr = suite_fault(tier, seed)
             res = dict(results=res['results'] + fr['results'], wall=res.get('wall', 0) + fr.get('wall', 0),
